@@ -73,6 +73,7 @@ func (cacheEngine) Decode(b []byte) (any, error) {
 
 var cacheKinds = []int64{1, 1, 5, 5, 0, 3, 10002, 30000, 30000, 30001, 20001, 7}
 var cacheEdgeKinds = []int64{9999, 10000, 10000, 19999, 19999, 20000, 29999, 30000, 39999, 39999, 40000, 65535, 65536, 100000}
+var cacheTagLetters = []string{"z", "Z", "a", "A", "E", "P", "K", "k", "r", "g", "I"}
 var cacheDs = []string{"", "a", "b:c"}
 
 // build resolves references into tags; events are pure functions of the case.
@@ -189,7 +190,7 @@ func genFilter(t *rapid.T, evs []*mocrelay.Event) simrt.FilterSpec {
 		for i := 0; i < nt; i++ {
 			e := pick()
 			if len(e.Tags) == 0 || rapid.IntRange(0, 4).Draw(t, "randtag") == 0 {
-				name := rapid.SampledFrom([]string{"t", "e", "p", "d", "a", "T"}).Draw(t, "tagname")
+				name := rapid.SampledFrom(append([]string{"t", "e", "p", "d", "a", "T"}, cacheTagLetters...)).Draw(t, "tagname")
 				f.Tags[name] = append(f.Tags[name], rapid.SampledFrom([]string{"x", "y", "", "a"}).Draw(t, "tagval"))
 				continue
 			}
@@ -273,6 +274,10 @@ func genCacheEvents(t *rapid.T, c *CacheCase, nev int) {
 		}
 		if rapid.IntRange(0, 4).Draw(t, "ptag") == 0 {
 			e.Tags = append(e.Tags, []string{"p", ref.Authors[rapid.IntRange(0, 2).Draw(t, "p")].Pubkey, "extra"})
+		}
+		if rapid.IntRange(0, 5).Draw(t, "lettertag") == 0 {
+			// any single letter, either case, is an indexable tag name
+			e.Tags = append(e.Tags, []string{rapid.SampledFrom(cacheTagLetters).Draw(t, "letter"), rapid.SampledFrom([]string{"x", "y"}).Draw(t, "letterv")})
 		}
 		// a repeated (name, value) pair, not at the end: index maintenance must
 		// cope with one event contributing the same index key twice
